@@ -35,6 +35,45 @@ pub fn gen_extreme_objects(rng: &mut Rng, with_data: bool) -> Vec<u8> {
     let mut out = Vec::new();
     let n = rng.urange(1, 3);
     for _ in 0..n {
+        if rng.chance(1, 6) {
+            // a device attribute (group 0): [data type][length][payload] with every data type, extreme lengths and a payload that
+            // matches the length, falls short of it or exceeds it
+            out.push(0);
+            out.push(*rng.pick(&[0u8, 1, 196, 201, 211, 240, 245, 248, 249, 250, 252, 253, 254, 255]));
+            let set = *rng.pick(&[0u8, 0, 0, 1, 255]);
+            match rng.below(5) {
+                0 => {
+                    out.push(0x01);
+                    out.extend_from_slice(&(set as u16).to_le_bytes());
+                    out.extend_from_slice(&(*rng.pick(&[set as u16, 256, 65535])).to_le_bytes());
+                }
+                1 => {
+                    out.push(0x17);
+                    out.push(*rng.pick(&[1u8, 1, 2, 0]));
+                    out.push(set);
+                }
+                2 => out.push(0x06),
+                _ => {
+                    out.push(0x00);
+                    out.push(set);
+                    out.push(if rng.chance(1, 8) { set.wrapping_add(1) } else { set });
+                }
+            }
+            if with_data || rng.chance(1, 3) {
+                let ty = *rng.pick(&[1u8, 2, 3, 4, 5, 6, 7, 254, 255, 0, 8, 100]);
+                let len = *rng.pick(&[0u8, 1, 2, 3, 4, 5, 6, 7, 8, 9, 16, 254, 255]);
+                out.push(ty);
+                out.push(len);
+                let real = if ty == 255 { len as usize + 256 } else { len as usize };
+                let n = match rng.below(4) {
+                    0 => real.saturating_sub(1),
+                    1 => real + rng.urange(1, 3),
+                    _ => real,
+                };
+                out.extend(rng.bytes(n));
+            }
+            continue;
+        }
         let (group, var) = *rng.pick(&[
             (1u8, 1u8),
             (1, 2),
